@@ -1,6 +1,6 @@
 CONSTANTS MaxSteps = 3
-          Stride = 8
-          PoolStride = 97
+          Stride = 12
+          PoolStride = 173
           ZStride = 25
           Gen = TRUE
           Form = "pairs"
